@@ -178,6 +178,9 @@ func (v *Verifier) modelClone(s *State, args []*Term, call *ast.CallExpr) []*Ter
 	cp := v.fresh("cap", SInt)
 	s.assume(And(Ge(cp, SLen(sl)), Le(cp, IntLitB(maxLen))))
 	isNil := Eq(SBase(sl), IntLit(0))
+	if v.entails(s, Not(isNil)) {
+		return []*Term{MkSlice(nb, IntLit(0), SLen(sl), cp)}
+	}
 	return []*Term{Ite(isNil, NilSlice, MkSlice(nb, IntLit(0), SLen(sl), cp))}
 }
 
